@@ -80,6 +80,12 @@ def check_xver(case, il, ctx, ml=""):
                          f"{I.get('pc' if a == 'pp' else 'cc', '')[:140]!r}")
         if "PANIC" in (x or "") or "PANIC" in (y or "") or "ERR:" in (y or ""):
             probs.append(f"{who}: reader failed: {x[:80]} / {y[:80]}")
+    if case.split(" ")[0] == "W" and "app" in I:
+        # where the file lies in memory must not make the releases disagree about accepting it
+        if I.get("app") != I.get("apc"):
+            probs.append(f"file written by the pinned release: accepted at addresses modulo 8 by the pinned reader {I.get('app')} / by the current reader {I.get('apc')}")
+        if I.get("acp") != I.get("acc"):
+            probs.append(f"file written by the current tree: accepted at addresses modulo 8 by the pinned reader {I.get('acp')} / by the current reader {I.get('acc')}")
     if case.split(" ")[0] == "W" and ml and ml != "w=SKIPPED":
         # the bytes each release writes, against the model of that release's writer (Pinned.v / CacheWriter.v)
         Mm = kv(ml)
@@ -139,7 +145,18 @@ def _check_case(prop, case, il, ml, ctx):
         _kind(ctx, "PANIC")
     if "FMTERR" in il or "WRITEERR" in il:
         probs.append("implementation returned an error")
+    if op == "SEC":
+        if I.get("sec") != "1":
+            probs.append("a section taken after its parent was queried does not behave as the mapping of its own bytes (records, summary, validity, line info or cache bytes differ from a fresh mapping)")
+        if I.get("parent") != "1":
+            probs.append("taking and using a section changed what the parent mapping writes")
+        _nontrivial(ctx, case, True)
+        _kind(ctx, "SEC")
+        return probs
     if op == "I":
+        if il.endswith(";ITERATOR-PROTOCOL"):
+            il = il[:-len(";ITERATOR-PROTOCOL")]
+            probs.append("nth / skip / step_by / last / count of the record iterator do not walk the stream that next() yields")
         if il != ml:
             probs.append(f"record stream differs: implementation {il[:300]!r} model {ml[:300]!r}")
         for b in items_no_terminator(il):
